@@ -121,6 +121,8 @@ fn check_history(sess: &Session, ops: &[Op], obs: &mut Obs) -> Verdict {
                 let again = if *side == 0 { snd.export(ctx, *len) } else { rcv.export(ctx, *len) };
                 obs.inner_checks += 2;
                 ensure!(got == again, "C11/export/not-repeatable", "two identical export calls returned different results (L={})", len);
+                let third = if *side == 0 { snd.export(ctx, *len) } else { rcv.export(ctx, *len) };
+                ensure!(got == third, "C11/export/not-repeatable", "the third identical export call returned a different result (L={})", len);
                 let who = if *side == 0 { "sender" } else { "receiver" };
                 let v = check_export(who, got, &ks, ctx, *len, suite, &last);
                 if v != Verdict::Pass {
